@@ -1,5 +1,5 @@
 SPECIFICATION Spec
-CONSTANTS Family = "pct"  MaxTrials = 3  MaxStep = 1  MaxVal = 1  MaxReports = 4  WithNaN = TRUE
+CONSTANTS Family = "pct"  MaxTrials = 3  MaxStep = 1  MaxVal = 1  MaxReports = 3  WithNaN = TRUE
           FinishStates = {"COMPLETE", "PRUNED"}
 INVARIANT AlgoWithinEnvelope
 INVARIANT EnvelopeSatisfiable
